@@ -217,6 +217,11 @@ func cmdVerify(args []string) {
 				}
 				fmt.Printf("   %s %-60s %d queries %.1fs %s", st, n, len(byName[n]), slow, slowSolver)
 				if !ok {
+					if os.Getenv("DVC_ALLPATHS") != "" {
+						for _, o := range byName[n] {
+							fmt.Printf("\n        [path %d: %s %.1fs %v]", o.PathID, o.Result, o.TimeS, o.Trace)
+						}
+					}
 					for _, o := range byName[n] {
 						if o.Result != "unsat" {
 							fmt.Printf("\n        path %d: %s (%s) trace=%v  %s", o.PathID, o.Result, o.Solver, o.Trace, o.Text)
